@@ -148,6 +148,34 @@ def sentence(draw, prof: Profile, depth=None, bound=()):
     return ('Q', q, v, body)
 
 
+def shapes_for(prof: Profile):
+    "[(kind, operator / quantifier, negated)] -- the top-level forms a tableau rule is written for, within the profile's fragment."
+    out = []
+    for neg in (False, True):
+        out += [('op', o, neg) for o in ('Negation', 'Assertion') + tuple(prof.bin_ops)]
+        if prof.w_modal:
+            out += [('op', o, neg) for o in A.MODAL_OPS]
+        if prof.w_quant and prof.vars:
+            out += [('quant', q, neg) for q in A.QUANTS]
+    return out
+
+
+@st.composite
+def shaped_sentence(draw, prof: Profile, shape, depth=2):
+    """A sentence whose top-level form is the given shape (so that a particular rule is the first to meet it), with drawn
+    operands of depth < ``depth``."""
+    kind, name, neg = shape
+    if kind == 'quant':
+        v = prof.vars[0]
+        body = _force_var(draw, draw(sentence(prof, draw(st.integers(0, depth - 1)), (v,))), v, prof)
+        s = ('Q', name, v, body)
+    elif A.OPS[name] == 1:
+        s = ('O', name, (draw(sentence(prof, draw(st.integers(0, depth - 1)))),))
+    else:
+        s = ('O', name, (draw(sentence(prof, draw(st.integers(0, depth - 1)))), draw(sentence(prof, draw(st.integers(0, depth - 1))))))
+    return A.neg(s) if neg else s
+
+
 @st.composite
 def argument(draw, prof: Profile, max_premises=3, depth=None):
     n = draw(st.integers(0, max_premises))
